@@ -11,7 +11,7 @@ func init() {
 		technique: "go/cfg path rules: publish-then-wake (Enqueue ⇒◇ TrySchedule ⇒ schedule), release–recheck–reclaim at every ownership-flag release, turn-exit classification, single-consumer who-may-call",
 		explanation: "Decides the lost-wake-up and single-consumer protocol shape: (1) every producer onto an actor's own mailbox performs Enqueue, then on every non-error path TrySchedule, and a won TrySchedule always reaches dispatcher.schedule; every Enqueue site on those mailboxes is such a producer; (2) every release of an ownership flag (schedState.reset in finishOrReclaim; senderBox.active.Store(false) in the fair mailbox) is followed on every path by a re-read of the work indicator and a conditional re-acquire, and the emptiness test never precedes the release; fair-mailbox producers always test the active flag after publishing; (3) every exit of runTurn after the take is finishOrReclaim()==true or YieldToScheduled followed by reschedule; (4) in doReceive a failed Enqueue reaches handleReceivedError and not the scheduler, a successful one never reaches handleReceivedError; (5) the actor mailboxes are dequeued only by the turn loops (stash box only by unstash/unstashAll). Exactly-once across restarts and scheduler liveness are not decided.",
 		assumptions: []string{"exactly-once delivery while a restart is in flight", "liveness of the worker pool (a scheduled actor is eventually run)", "internal correctness of each mailbox under interleavings (see C04)"},
-		minObl:     30,
+		minObl:     45,
 		run:        runC02,
 	})
 }
